@@ -232,6 +232,11 @@ bool exec_spline(ExecCtx &c) {
       int slot = op.a % NP;
       if (!P.p[slot]) return true;
       out.target = SLOT_P0 + slot;
+      if (c.task >= 0) {
+        sim::Exempt e;
+        long uc = std::visit([](const auto &s) { return s.getSupport().getGrid().getData().use_count(); }, *P.p[slot]);
+        if (uc == 2) probe(PR_LAST_OWNER_TASK);  // this task destroys the grid storage
+      }
       libcall(out, [&] { P.p[slot].reset(); });
       return true;
     }
